@@ -289,11 +289,13 @@ func c08Child(spec string) {
 // c11Conn0 is an inert net.Conn used as "the connection the request came on".
 type c11Conn0 struct{}
 
-func (c *c11Conn0) Read(b []byte) (int, error)         { return 0, io.EOF }
-func (c *c11Conn0) Write(b []byte) (int, error)        { return len(b), nil }
-func (c *c11Conn0) Close() error                       { return nil }
-func (c *c11Conn0) LocalAddr() net.Addr                { return &net.TCPAddr{IP: net.IPv4(127, 0, 0, 1), Port: 5070} }
-func (c *c11Conn0) RemoteAddr() net.Addr               { return &net.TCPAddr{IP: net.IPv4(127, 0, 0, 9), Port: 40000} }
+func (c *c11Conn0) Read(b []byte) (int, error)  { return 0, io.EOF }
+func (c *c11Conn0) Write(b []byte) (int, error) { return len(b), nil }
+func (c *c11Conn0) Close() error                { return nil }
+func (c *c11Conn0) LocalAddr() net.Addr         { return &net.TCPAddr{IP: net.IPv4(127, 0, 0, 1), Port: 5070} }
+func (c *c11Conn0) RemoteAddr() net.Addr {
+	return &net.TCPAddr{IP: net.IPv4(127, 0, 0, 9), Port: 40000}
+}
 func (c *c11Conn0) SetDeadline(t time.Time) error      { return nil }
 func (c *c11Conn0) SetReadDeadline(t time.Time) error  { return nil }
 func (c *c11Conn0) SetWriteDeadline(t time.Time) error { return nil }
